@@ -41,7 +41,9 @@ package agreement
 //
 // The monitors (every live honest node calls EnsureBlock for `target` — and every earlier round it lacks — within K periods
 // and within the step budget; deadlines increase; no panic; the C01 acceptor still accepts) are evaluated by checks/C05.py on
-// these files.  A schedule is replayable: `sync …` is an ordinary decision line, the decisions after it are recorded verbatim.
+// these files.  A schedule is replayable: `sync …` is an ordinary decision line, the decisions after it are recorded verbatim; a
+// replay executes the recorded decisions and then keeps running the synchronous scheduler until the target is committed or the
+// budget is exhausted.
 //
 // Environment (besides NetDrive's): VERIF_C05_SCHEDULES, VERIF_C05_FROM, VERIF_C05_MODE (force vt|nd), VERIF_C05_PREFIX (force the
 // prefix length), VERIF_C05_BYZ (force 0|1 after the synchrony point), VERIF_C05_SYNCSTEPS (budget of the synchronous phase).
@@ -90,6 +92,7 @@ type c05Run struct {
 	last     []c05Status
 	sendAt   map[string]time.Duration
 	nSync    int
+	script   func(c *c05Run, s *ndScen)
 }
 
 // c05Config: NetDrive's planning (ndPlan) with the node count and the prefix profile chosen by the caller: weights 1–3, all
@@ -538,15 +541,22 @@ func (c *c05Run) execute() {
 	if !r.waitQuiet(20 * time.Second) {
 		r.note("QUIET-TIMEOUT at start")
 	}
+	if c.script != nil && r.replay == nil { // a directed prefix: the script issues its decisions through the same executor
+		c.script(c, &ndScen{r: r, out: c.out})
+		c.prefix = 0
+	}
 	for i := 0; i < r.cfg.maxSteps; i++ {
 		var line string
 		switch {
+		case r.replay != nil && i < len(r.replay):
+			line = r.replay[i]
+		case r.replay != nil && !c.synced:
+			line = "end"
 		case r.replay != nil:
-			if i >= len(r.replay) {
-				line = "end"
-			} else {
-				line = r.replay[i]
-			}
+			// the recorded decisions are a prefix: progress is a liveness property, so the replay keeps running the synchronous
+			// scheduler after them (on a tree where the recorded decisions no longer apply — REPLAY-DIVERGED — this decides whether
+			// the run still gets stuck)
+			line = c.genSync()
 		case !c.synced && i >= c.prefix:
 			line = fmt.Sprintf("sync mode=%s delta=%d byz=%d", c.mode, c.delta/time.Millisecond, b2i(c.byzActive))
 		case !c.synced:
@@ -603,6 +613,51 @@ func (c *c05Run) execute() {
 			r.stopNode(n)
 			n.acc.Close()
 		}
+	}
+}
+
+// c05ScenPipelined: the directed prefix for `pipelined threshold events` (player.enterRound).  Four honest nodes, T = 3.  Node X = 3
+// hears nothing while A, B, C commit round r; in round r+1 (period 0) it receives the proposals and all soft and cert votes of
+// A, B, C while it is still in round r: its vote tracker of round r+1 collects a cert threshold, its proposal store the payload —
+// pipelined.  A, B, C commit r+1.  Then the synchrony point: X receives round r's messages, commits r, enters r+1 — and must
+// commit r+1 at once from what it holds (variant 0).  Variant 1: A, B, C see no proposal in r+1, time out and next-vote ⊥; X
+// holds a pipelined next threshold of (r+1, 0) and must be in period 1 as soon as it enters the round.
+func c05ScenPipelined(variant int) func(c *c05Run, s *ndScen) {
+	return func(c *c05Run, s *ndScen) {
+		r := s.r
+		X := 3
+		others := []int{0, 1, 2}
+		rnd := r.start
+		among := func(m *ndMsg, in ndInfo) bool { return m.dst != X && m.src != X && in.round == rnd }
+		flush := func(pred func(m *ndMsg, in ndInfo) bool) {
+			for k := 0; k < 12 && s.deliver(pred) > 0; k++ {
+			}
+		}
+		// round r among A, B, C only
+		flush(func(m *ndMsg, in ndInfo) bool { return among(m, in) && in.kind == 'P' })
+		for _, a := range others {
+			s.do("t %d", a)
+		}
+		flush(among)
+		// round r+1
+		next := rnd + 1
+		toAll := func(m *ndMsg, in ndInfo) bool { return m.src != X && in.round == next }
+		if variant == 0 {
+			flush(func(m *ndMsg, in ndInfo) bool { return toAll(m, in) && in.kind == 'P' })
+			for _, a := range others {
+				s.do("t %d", a)
+			}
+			flush(toAll)
+		} else {
+			for _, a := range others {
+				s.do("t %d", a) // filter timeout without any proposal: no soft vote
+			}
+			for _, a := range others {
+				s.do("t %d", a) // deadline: next vote ⊥
+			}
+			flush(func(m *ndMsg, in ndInfo) bool { return toAll(m, in) && in.kind == 'V' && m.dst == X })
+		}
+		r.note("SCENARIO pipelined variant=%d X=%d", variant, X)
 	}
 }
 
@@ -684,7 +739,7 @@ func TestVerifC05(t *testing.T) {
 		}
 		for i, cfg := range cs {
 			cfg.rounds = 1 << 20
-			cfg.maxSteps = len(ds[i]) + 1
+			cfg.maxSteps = len(ds[i]) + 1 + ndEnvInt("VERIF_C05_SYNCSTEPS", 6000+1500*(cfg.n-4))
 			cfgs = append(cfgs, cfg)
 			runs = append(runs, &c05Run{rng: vh.NewRng(cfg.seed + 99), sendAt: map[string]time.Duration{}, mode: "nd"})
 			decs = append(decs, ds[i])
@@ -692,6 +747,16 @@ func TestVerifC05(t *testing.T) {
 	} else {
 		count := ndEnvInt("VERIF_C05_SCHEDULES", vh.Budget(24, 1200))
 		from := ndEnvInt("VERIF_C05_FROM", 0)
+		if from == 0 && os.Getenv("VERIF_C05_NOSCEN") == "" {
+			for v := 0; v < 2; v++ {
+				cfg := ndConfig{id: 9000 + v, seed: vh.Seed()*17 + uint64(v), n: 4, w: []uint64{1, 1, 1, 1}, honest: []bool{true, true, true, true}, T: 3,
+					rounds: 1 << 20, maxSteps: 4000, profile: fmt.Sprintf("scenario-pipelined%d", v)}
+				c := &c05Run{rng: vh.NewRng(cfg.seed + 5), sendAt: map[string]time.Duration{}, mode: []string{"ls", "vt"}[v], script: c05ScenPipelined(v)}
+				cfgs = append(cfgs, cfg)
+				runs = append(runs, c)
+				decs = append(decs, nil)
+			}
+		}
 		for i := from; i < count; i++ {
 			cfg, c := c05Plan(vh.Seed(), i, vh.Thorough())
 			cfgs = append(cfgs, cfg)
@@ -731,4 +796,196 @@ func TestVerifC05(t *testing.T) {
 			t.Fatalf("schedule %d: %s", cfg.id, r.fatal)
 		}
 	}
+}
+
+// ---------------------------------------------------------------------------------------------- single-node tie
+
+// TestVerifC05Player: the reaction functions of Spec.AgreementSync (softValue / nextValue / fastVote / partitioned — what an honest
+// node votes and re-broadcasts on a timeout) against ONE real player + rootRouter, driven through rootRouter.submitTop by
+// PlayerDrive's executor (zz_verif_player_test.go: verified votes / proposal-votes / payloads, `t` = step timeout, `ft` = fast
+// timeout).  Exhaustive small universe: how the node entered its period (period 0 | next quorum for ⊥ | for a value y | both) ×
+// the period's leader (none | a fresh proposal | the re-proposal of y) × what is staged when the deadline expires (nothing | the
+// soft-voted value | another value) × whether the staged value's payload is held.  For every case the harness prints the abstract
+// situation as an op line (see lean/AlgoVerif/Driver/C05.lean) and what the real player did as the result line; the Lean driver
+// `c05` answers the same op lines from the model.  Also on the implementation alone: over a long run of step timeouts the deadline
+// strictly increases (`deadline-increase` lines, result `ok`).
+func TestVerifC05Player(t *testing.T) {
+	logging.Base().SetOutput(io.Discard)
+	logging.Base().SetLevel(logging.Error)
+	y := verifPlSyms()
+	x := &verifPlExec{y: y, tr: &tracer{log: serviceLogger{logging.Base()}}, delivered: map[string]uint64{}}
+	out := vh.Open("c05p")
+	defer out.Close()
+	q := verifPlParams{softT: 3, certT: 3, nextT: 3, lateT: 3, redoT: 3, downT: 3}
+	const R = 1
+	const Y, Z, U0, U1 = 11, 12, 14, 1013 // values of round 1: Y, Z, U0 original period 0; U1 original period 1
+	attest := func(res string, wantStep func(uint64) bool) (string, bool) {
+		// first attest action of the result line whose step satisfies wantStep → "<step> <value>"
+		acts := strings.SplitN(res, " | ", 2)[0]
+		for _, a := range strings.Split(acts, "; ") {
+			f := strings.Fields(a)
+			if len(f) == 5 && f[0] == "attest" {
+				if s := vh.U(f[3]); wantStep(s) {
+					return f[3] + " " + f[4], true
+				}
+			}
+		}
+		return "", false
+	}
+	has := func(res, prefix string) bool {
+		acts := strings.SplitN(res, " | ", 2)[0]
+		for _, a := range strings.Split(acts, "; ") {
+			if strings.HasPrefix(a, prefix) {
+				return true
+			}
+		}
+		return false
+	}
+	valStr := func(v string) string {
+		if v == "0" {
+			return "bot"
+		}
+		return v
+	}
+	tok := func(v uint64) string {
+		if v == 0 {
+			return "-"
+		}
+		return fmt.Sprint(v)
+	}
+	run := func(op string) string {
+		res := x.exec(op)
+		if strings.Contains(res, "PANIC") || res == "bad-op" || res == "DEAD" {
+			t.Fatalf("op %q: %s", op, res)
+		}
+		return res
+	}
+	quorum := func(p, s, val uint64, firstSender uint64) {
+		for k := uint64(0); k < 3; k++ {
+			run(fmt.Sprintf("v 1 0 %d %d %d %d 1 %d", R, p, s, firstSender+k, val))
+		}
+	}
+	cases := 0
+	for entry := 0; entry < 4; entry++ { // 0: period 0; 1: ⊥ quorum; 2: quorum for Y; 3: both
+		for leader := 0; leader < 3; leader++ { // 0 none, 1 fresh proposal, 2 re-proposal of Y
+			for staged := 0; staged < 3; staged++ { // 0 nothing, 1 the soft-voted value (if any), 2 Z
+				for avail := 0; avail < 2; avail++ {
+					per := uint64(0)
+					if entry > 0 {
+						per = 1
+					}
+					bottomC, propC := entry == 1 || entry == 3, uint64(0)
+					if entry >= 2 {
+						propC = Y
+					}
+					if leader == 2 && propC != Y {
+						continue // the re-proposal restriction is folded into the model's `leader`
+					}
+					run(verifPlResetLine(q, R, 0, uint64(soft)))
+					switch entry {
+					case 1:
+						quorum(0, uint64(next), 0, 1)
+					case 2:
+						quorum(0, uint64(next), Y, 1)
+					case 3:
+						quorum(0, uint64(next), 0, 1)
+						quorum(0, uint64(redo), Y, 4)
+					}
+					var lead uint64
+					switch leader {
+					case 1:
+						lead = U0
+						if per == 1 {
+							lead = U1
+						}
+					case 2:
+						lead = Y
+					}
+					if lead != 0 {
+						run(fmt.Sprintf("pv 1 0 9 %d %d %d 3 0 -", R, per, lead))
+						run(fmt.Sprintf("pl 1 0 %d %d 0", lead, R))
+					}
+					// ---- filter timeout
+					res := run("t 5")
+					got := "soft none"
+					softVoted := uint64(0)
+					if a, ok := attest(res, func(s uint64) bool { return s == uint64(soft) }); ok {
+						got = "soft " + strings.Fields(a)[1]
+						softVoted = vh.U(strings.Fields(a)[1])
+					}
+					out.Emit(fmt.Sprintf("soft %d %s %s", b2i(bottomC), tok(propC), tok(lead)), got)
+					// ---- what is staged when the deadline expires
+					var st uint64
+					switch staged {
+					case 1:
+						st = softVoted
+					case 2:
+						st = Z
+					}
+					if staged == 1 && st == 0 {
+						continue
+					}
+					if st != 0 {
+						quorum(per, uint64(soft), st, 1)
+						if avail == 1 {
+							run(fmt.Sprintf("pl 1 0 %d %d 0", st, R))
+						}
+					}
+					held := avail == 1 || (st != 0 && st == lead) // the leader's payload was delivered with its proposal
+					// ---- deadline
+					res = run("t 5")
+					got = "next none"
+					if a, ok := attest(res, func(s uint64) bool { return s == uint64(next) }); ok {
+						got = "next " + valStr(strings.Fields(a)[1])
+					}
+					out.Emit(fmt.Sprintf("next %d %d %s %s %d", per, b2i(bottomC), tok(propC), tok(st), b2i(held)), got)
+					// ---- fast recovery: the first fast timeout only arms the timer
+					run("ft 7")
+					res = run("ft 7")
+					got = "fast none"
+					if a, ok := attest(res, func(s uint64) bool { return s >= uint64(late) }); ok {
+						f := strings.Fields(a)
+						name := map[uint64]string{uint64(late): "late", uint64(redo): "redo", uint64(down): "down"}[vh.U(f[0])]
+						got = "fast " + name + " " + valStr(f[1])
+					}
+					out.Emit(fmt.Sprintf("fast %d %d %s %s %d", per, b2i(bottomC), tok(propC), tok(st), b2i(held)), got)
+					// ---- partitionPolicy: the freshest bundle is re-broadcast with the next votes from step next+3 on
+					if st != 0 || entry > 0 {
+						for k := 0; k < 8; k++ {
+							res = run("t 5")
+							pl := strings.SplitN(res, " | ", 2)[1]
+							var stepNow, perNow uint64
+							fmt.Sscanf(pl[strings.Index(pl, "P="):], "P=%d S=%d", &perNow, &stepNow)
+							if _, voted := attest(res, func(s uint64) bool { return s >= uint64(next) && s < uint64(late) }); voted {
+								out.Emit(fmt.Sprintf("rebroadcast %d %d", stepNow, perNow), "rebroadcast "+fmt.Sprint(b2i(has(res, "bcastBundle"))))
+							}
+						}
+					}
+					cases++
+				}
+			}
+		}
+	}
+	// ---- deadlines increase (implementation alone): 30 step timeouts in period 0 and in period 1
+	for _, per := range []uint64{0, 1} {
+		run(verifPlResetLine(q, R, 0, uint64(soft)))
+		if per == 1 {
+			quorum(0, uint64(next), 0, 1)
+		}
+		last := int64(-1)
+		verdict := "ok"
+		for k := 0; k < 30; k++ {
+			res := run(fmt.Sprintf("t %d", 1000003*k+17))
+			pl := strings.SplitN(res, " | ", 2)[1]
+			var d, ty int64
+			fmt.Sscanf(pl[strings.Index(pl, "D="):], "D=%d/%d", &d, &ty)
+			if d <= last {
+				verdict = fmt.Sprintf("DECREASE at timeout %d: %d ns after %d ns (%s)", k, d, last, pl)
+				break
+			}
+			last = d
+		}
+		out.Emit(fmt.Sprintf("deadline-increase %d", per), verdict)
+	}
+	t.Logf("c05 player tie: %d cases", cases)
 }
